@@ -392,7 +392,7 @@ def c02_bounded(tier, seed):
     res["bounded"].append({"what": "util.getMaxComponentDepth: raises InvalidFontData iff a cyclic reference is reachable; result > 0 iff the glyph has components; result <= true height",
                            "bound": f"all {n_graphs} component graphs in scope (3 glyph names + 1 missing name, <= 2 components per glyph; thorough adds 150000 random graphs on 4 names, <= 3 components), every start glyph"})
     # end-to-end observer
-    n = 24 if tier == "quick" else 500
+    n = 24 if tier == "quick" else 2500
     for k in range(n):
         case = gen_case(rng, k)
         try:
